@@ -1073,6 +1073,61 @@ fn through_local(c: &mut Ctx, tz: &str, z: &Zc) {
     let old = std::env::var("TZ").ok();
     std::env::set_var("TZ", tz);
     let qs2 = qs.clone();
+    let qs3 = qs.clone();
+    // every way of reaching an instant from another zone-aware value reports the offset the zone
+    // prescribes at the instant reached (the value is re-viewed in the zone, not just moved)
+    let moved: Vec<String> = std::thread::spawn(move || {
+        use chrono::{Offset, TimeDelta};
+        let us: Vec<i64> = qs3.iter().filter(|q| q.starts_with('u')).map(|q| q[1..].parse().unwrap()).collect();
+        let mut bad = vec![];
+        for w in us.windows(2) {
+            let (x, y) = (w[0], w[1]);
+            let r = guard(|| {
+                let (Some(a), Some(b)) = (Local.timestamp_opt(x, 0).single(), Local.timestamp_opt(y, 0).single()) else { return vec![] };
+                let Some(d) = TimeDelta::try_seconds(y - x) else { return vec![] };
+                let mut out: Vec<(&'static str, chrono::DateTime<Local>)> = vec![];
+                if let Some(v) = a.checked_add_signed(d) {
+                    out.push(("checked_add_signed", v));
+                    out.push(("+", a + d));
+                    let mut m = a;
+                    m += d;
+                    out.push(("+=", m));
+                }
+                if let Some(v) = a.checked_sub_signed(-d) {
+                    out.push(("checked_sub_signed", v));
+                    out.push(("-", a - (-d)));
+                    let mut m = a;
+                    m -= -d;
+                    out.push(("-=", m));
+                }
+                if y >= x {
+                    let sd = std::time::Duration::from_secs((y - x) as u64);
+                    out.push(("+ std", a + sd));
+                    let mut m = a;
+                    m += sd;
+                    out.push(("+= std", m));
+                } else {
+                    let sd = std::time::Duration::from_secs((x - y) as u64);
+                    out.push(("- std", a - sd));
+                    let mut m = a;
+                    m -= sd;
+                    out.push(("-= std", m));
+                }
+                out.push(("with_timezone", a.with_timezone(&chrono::Utc).with_timezone(&Local) + d));
+                out.into_iter()
+                    .filter(|(_, v)| v.timestamp() != b.timestamp() || v.offset().fix() != b.offset().fix() || v.naive_local() != b.naive_local())
+                    .map(|(how, v)| format!("{x} {how} {}s -> offset {} (the zone prescribes {} at {y})", y - x, v.offset().fix(), b.offset().fix()))
+                    .collect::<Vec<_>>()
+            });
+            match r {
+                Ok(v) => bad.extend(v),
+                Err(()) => {}
+            }
+        }
+        bad
+    })
+    .join()
+    .unwrap_or_default();
     let res: Vec<String> = std::thread::spawn(move || {
         qs2.iter()
             .map(|q| {
@@ -1099,6 +1154,10 @@ fn through_local(c: &mut Ctx, tz: &str, z: &Zc) {
         Some(v) => std::env::set_var("TZ", v),
         None => std::env::remove_var("TZ"),
     }
+    for m in moved.iter().take(3) {
+        c.fail("a zone-aware value moved to another instant does not report the offset the zone prescribes there", &format!("TZ={tz} {m}"));
+    }
+    c.count("local.moved-values-compared");
     if res.len() == qs.len() {
         c.count("local.glue.zones");
         c.op(&format!("tzl.cache {} {}", z.dump, qs.join(",")), &res.join(","));
